@@ -208,6 +208,14 @@ pub fn minimise(
             c.recorder.extras.trailing.clear();
             progress |= try_it(c, &mut cur, budget);
             let mut c = cur.clone();
+            c.recorder.extras.phantom.clear();
+            progress |= try_it(c, &mut cur, budget);
+            if cur.recorder.idle {
+                let mut c = cur.clone();
+                c.recorder.idle = false;
+                progress |= try_it(c, &mut cur, budget);
+            }
+            let mut c = cur.clone();
             c.recorder.irregular = Irregular::default();
             progress |= try_it(c, &mut cur, budget);
             let mut c = cur.clone();
